@@ -24,6 +24,23 @@ SPEC = {
             "the enumeration: full iteration, at/exists(pt) for every grid point (+4 off-grid points), within/exists(lo,hi) "
             "for all 36 proper half-open boxes over the grid + 6 empty/inverted/out-of-grid boxes (every state for <=4 "
             "points, a hashed 1/16 (5 points) / 1/128 (6 points) of the states otherwise), erase() of absent entries. "
+            "types (c13_types.cc): the same oracle (one non-template class working on grid indices) behind a thin "
+            "per-instantiation adapter, for KDTree<VectorN<S>, V> with S in {int8_t,int16_t,int32_t,int64_t,uint8_t,"
+            "uint16_t,uint32_t,uint64_t,float,double}, N in {2,3,4}, V in {int64_t, std::string, Tracked (deep-copying, "
+            "non-trivially copyable)} - 26 instantiations chosen so that every scalar occurs with >=2 point types and every "
+            "scalar family with every value type - and four placements of the grid inside the scalar's range (low: from "
+            "lowest(); mid: around 0 resp. 2^(bits-1); high: up to max(); span: lowest()..centre..max(), so differences of "
+            "coordinates wrap / overflow / are not representable).  The grid-index -> coordinate map is strictly "
+            "increasing (checked with the scalar's own <), hence the expected answers are those of the index model; the "
+            "structural walk compares stored coordinates with the scalar's < and == only.  texh: every (instantiation, "
+            "placement) runs all sequences of <=2 (quick) / <=3 (thorough) of 9 points (3x3 grid in axes 0,1; further axes "
+            "functions of (x,y)), every longer sequence up to 4 points runs under one combination (rotating with sequence "
+            "index and seed; quick: once over the three groups, thorough: once in each group), each with every erase order "
+            "and every erase_advance visit mask.  "
+            "trnd: 300-op random histories, instantiation x placement rotating with the history index.  Query points / "
+            "boxes with a coordinate the scalar cannot represent are skipped (counted).  Groups 0-2 are compiled -O0 with "
+            "assert() live, group 3 (control int64, uint32 3-D with strings, double with Tracked) with -O2 -DNDEBUG; the "
+            "NDEBUG state is the coverage class types:build:*.  Violation keys of this part carry ':coord=<scalar family>'. "
             "distinct_nontrivial = distinct (operation, dimension, shape of the deleted/inserted node: leaf / only-before / "
             "only-after / both children x tie on the split axis x root/inner; query outcome kind; grid side) classes.",
     "level_text": "Exploration of a stated finite scope with an inline oracle: exhaustive for short histories on the 3x3 "
@@ -31,6 +48,9 @@ SPEC = {
                   "covers exactly the executions run; a defect needing more than 6 points on a 3-valued axis AND not hit by "
                   "the 300-op random histories would be missed.",
     "stages": [
+        # compiles every binary of this check concurrently (KDTree is header-only: all of them are rebuilt whenever
+        # /repo/src changes); the stages below then find their binary in the cache.  No oracle in it.
+        {"kind": "py", "name": "c13-prebuild", "func": "c13:prebuild"},
         {"name": "c13", "variant": "asan", "shards": (1, 1), "args": ["only=destroy"], "tag": "c13-destroy"},
         {"name": "c13", "variant": "asan", "shards": (16, 16), "args": ["only=exh"], "tag": "c13-exh"},
         # 6-point sequences: 9^6 x 720 erase orders = 3.8e8 histories cost ~14000 CPU-s under ASan and ~1800 CPU-s with
@@ -40,6 +60,21 @@ SPEC = {
         {"name": "c13", "variant": "ubsan2", "shards": (16, 16), "args": ["only=exh", "kmin=6", "k=6"],
          "tag": "c13-exh6", "tiers": ["thorough"]},
         {"name": "c13", "variant": "asan", "shards": (16, 16), "args": ["only=rnd"], "tag": "c13-rnd"},
+        # type matrix (c13_types.cc): three groups of instantiations, -O0 (cheap to compile; assert() live).
+        # no_mirror: these stages are build-configuration variants themselves (-O0 / -O2 -DNDEBUG), the driver's generic
+        # release mirror of them would only add compiles.
+        # optional_build: a tree on which some instantiation no longer compiles is reported by the driver as
+        # inconclusive unless another stage finds a violation.
+        {"name": "c13_types_g0", "sources": ["c13_types.cc"], "variant": "asan", "shards": (16, 16), "tag": "c13-types-signed",
+         "extra_cxx": ["-O0", "-DC13_GROUP=0"], "link_lib": False, "optional_build": True, "no_mirror": True},
+        {"name": "c13_types_g1", "sources": ["c13_types.cc"], "variant": "asan", "shards": (16, 16), "tag": "c13-types-unsigned",
+         "extra_cxx": ["-O0", "-DC13_GROUP=1"], "link_lib": False, "optional_build": True, "no_mirror": True},
+        {"name": "c13_types_g2", "sources": ["c13_types.cc"], "variant": "asan", "shards": (16, 16), "tag": "c13-types-float",
+         "extra_cxx": ["-O0", "-DC13_GROUP=2"], "link_lib": False, "optional_build": True, "no_mirror": True},
+        # release flags: what a CMAKE_BUILD_TYPE=Release user of the header compiles (assert() bodies vanish)
+        {"name": "c13_types_rel", "sources": ["c13_types.cc"], "variant": "asan", "shards": (16, 16), "tag": "c13-types-ndebug",
+         "extra_cxx": ["-O2", "-DNDEBUG", "-g1", "-DC13_GROUP=3"], "args": ["kb=3", "nh=48"], "link_lib": False,
+         "optional_build": True, "no_mirror": True},
     ],
     "min_evaluations": 1000000,
     "min_classes": {"quick": 80, "thorough": 80},
@@ -57,13 +92,38 @@ SPEC = {
         "sweep-form:post-increment-value",
         "destroy:2d:non-empty", "destroy:3d:non-empty", "destroy:empty:forked-scenario",
         "rnd:2d:side2", "rnd:2d:side12", "rnd:3d:side*",
+        # type matrix: every scalar in both parts, every point type, every value type, every family x placement,
+        # both assert states
+        "types:cfg:exh:*<int8_t>*", "types:cfg:exh:*<int16_t>*", "types:cfg:exh:*<int32_t>*", "types:cfg:exh:*<int64_t>*",
+        "types:cfg:exh:*<uint8_t>*", "types:cfg:exh:*<uint16_t>*", "types:cfg:exh:*<uint32_t>*", "types:cfg:exh:*<uint64_t>*",
+        "types:cfg:exh:*<float>*", "types:cfg:exh:*<double>*",
+        "types:cfg:rnd:*<int8_t>*", "types:cfg:rnd:*<int16_t>*", "types:cfg:rnd:*<int32_t>*", "types:cfg:rnd:*<int64_t>*",
+        "types:cfg:rnd:*<uint8_t>*", "types:cfg:rnd:*<uint16_t>*", "types:cfg:rnd:*<uint32_t>*", "types:cfg:rnd:*<uint64_t>*",
+        "types:cfg:rnd:*<float>*", "types:cfg:rnd:*<double>*",
+        "types:cfg:exh:Vector3<*", "types:cfg:exh:Vector4<*", "types:cfg:rnd:Vector3<*", "types:cfg:rnd:Vector4<*",
+        "types:value:int64_t:*", "types:value:std::string:2d", "types:value:std::string:3d", "types:value:Tracked:2d",
+        "types:value:Tracked:4d",
+        "types:place:sint-narrow:low", "types:place:sint-narrow:mid", "types:place:sint-narrow:high", "types:place:sint-narrow:span",
+        "types:place:sint-wide:low", "types:place:sint-wide:mid", "types:place:sint-wide:high", "types:place:sint-wide:span",
+        "types:place:uint-narrow:low", "types:place:uint-narrow:mid", "types:place:uint-narrow:high", "types:place:uint-narrow:span",
+        "types:place:uint-wide:low", "types:place:uint-wide:mid", "types:place:uint-wide:high", "types:place:uint-wide:span",
+        "types:place:float:low", "types:place:float:mid", "types:place:float:high", "types:place:float:span",
+        "types:build:assert-enabled", "types:build:ndebug",
+        "types:erase:2d:both:tie", "types:erase:3d:both:*", "types:erase:4d:both:*", "types:erase:2d:only-before:*",
+        "types:erase_advance:2d:both:*", "types:erase_advance:4d:*", "types:insert:4d:before:*", "types:insert:via-emplace",
+        "types:erase:via-iterator-returned-by-insert", "types:at:hit-duplicate-point", "types:within:result-some",
+        "types:exists-box:true", "types:exists-box:false", "types:erase:absent-value-sweep",
+        "types:destroy:non-empty", "types:destroy:emptied", "types:sweep:erase-some",
     ],
     "exhaustive": {"quick": False, "thorough": False},
     "exhaustive_note": "Enumerated completely: quick - all 7381 insertion sequences of 0..4 points of the 3x3 grid x all "
                        "erase orders (162,009 histories with distinct values) x all 2^k erase_advance visit masks x all "
                        "erase-order prefixes for destruction; thorough - the same for 0..5 points (66,430 sequences, 7,247,889 "
                        "erase-order histories with distinct values; asan). 6 points: all 531,441 sequences x all 720 erase orders "
-                       "(382,637,520 histories) x all 64 erase_advance masks (34,012,224 sweeps); -O2 UBSan build, no ASan. Random histories are sampled, hence exhaustive=false overall.",
+                       "(382,637,520 histories) x all 64 erase_advance masks (34,012,224 sweeps); -O2 UBSan build, no ASan. Type matrix: for each of the 26 instantiations x 4 placements all "
+                       "91 (quick) / 820 (thorough) sequences of <=2 / <=3 of the 9 points x all erase orders x all visit masks; "
+                       "the 729 3-point sequences (quick) and the 6561 4-point sequences are each enumerated completely but every "
+                       "sequence under one instantiation x placement only. Random histories are sampled, hence exhaustive=false overall.",
     "assumptions": ASSUME_COMMON + [
         "private members are reached with `#define private public` around the single KDTree.hh include (header-only "
         "template; every std header it uses is included before); no phosg source is modified",
@@ -74,5 +134,9 @@ SPEC = {
         "if a forked probe shows that ~KDTree() on an empty tree crashes, the exh/rnd parts release empty trees without "
         "running the destructor (the crash itself is reported by the destroy stage under key destroy:empty-tree)",
         "6-point exhaustive stage runs without ASan/LSan (UBSan + model + structural walk only)",
+        "type matrix: coordinates are finite and never -0.0 / NaN / infinite (the statement does not say how such "
+        "coordinates compare); a query whose point or box corner is not representable in the coordinate scalar is not "
+        "asked; whether all value objects are destroyed with the tree is recorded as a class, not judged (LSan judges leaks)",
+        "type matrix instantiations that do not compile against a tree make the run inconclusive (optional_build), not violated",
     ],
 }
